@@ -4999,6 +4999,14 @@ class DfaCompileCtx:
         if not ProgramData.do(ProgramFlag.REMOVE_INACCESIBLE_STATES):
             return 0
         accessible = set(self.dfa.dfs())
+        # States which the start actions can jump to (out-of-space handlers) are entered without any transition pointing at them
+        real_start = self.dfa.starting_state
+        for action in self.start_actions:
+            for subaction in action.all_subactions():
+                for target in subaction.get_target_override_targets():
+                    self.dfa.starting_state = target
+                    accessible.update(self.dfa.dfs())
+        self.dfa.starting_state = real_start
         mod = 0
         for i in self.dfa.states.copy():
             if i not in accessible:
